@@ -249,7 +249,7 @@ Qed.
 (* ---------- the matcher bitmask: groupBitOr(bitShiftLeft(c0,0) + bitShiftLeft(c1,1) + ...) ---------- *)
 Definition b2n (b : bool) : N := if b then 1%N else 0%N.
 (* the per-row sum as BitSetAnd computes it (running sum, running bit index) *)
-Definition mask_step (acc : N * N) (b : bool) : N * N := (fst acc + shl8 (if b then 1 else 0) (snd acc), snd acc + 1)%N.
+Definition mask_step (acc : N * N) (b : bool) : N * N := (fst acc + shl64 (if b then 1 else 0) (snd acc), snd acc + 1)%N.
 Definition row_mask (bs : list bool) : N := fst (fold_left mask_step bs (0, 0)%N).
 Fixpoint rowmask (bs : list bool) (i : N) : N :=
   match bs with
@@ -257,22 +257,23 @@ Fixpoint rowmask (bs : list bool) (i : N) : N :=
   | b :: bs' => (N.shiftl (b2n b) i + rowmask bs' (i + 1))%N
   end.
 
-Lemma shl8_small b i : (i < 8)%N -> shl8 (b2n b) i = N.shiftl (b2n b) i.
+Lemma shl64_small b i : (i < 64)%N -> shl64 (b2n b) i = N.shiftl (b2n b) i.
 Proof.
-  intros Hi. unfold shl8. apply N.mod_small. rewrite N.shiftl_mul_pow2.
-  assert (2 ^ i < 2 ^ 8)%N by (apply N.pow_lt_mono_r; lia).
-  destruct b; cbn [b2n]; change (2 ^ 8)%N with 256%N in *; lia.
+  intros Hi. unfold shl64. apply N.mod_small. rewrite N.shiftl_mul_pow2.
+  assert (2 ^ i < 2 ^ 64)%N by (apply N.pow_lt_mono_r; lia).
+  change (2 ^ 64)%N with 18446744073709551616%N in *.
+  destruct b; cbn [b2n]; lia.
 Qed.
-Lemma fold_mask_step bs : forall acc i, (i + N.of_nat (List.length bs) <= 8)%N ->
+Lemma fold_mask_step bs : forall acc i, (i + N.of_nat (List.length bs) <= 64)%N ->
   fold_left mask_step bs (acc, i) = ((acc + rowmask bs i)%N, (i + N.of_nat (List.length bs))%N).
 Proof.
   induction bs as [|b bs IH]; intros acc i Hle; cbn [fold_left rowmask List.length].
   - f_equal; lia.
   - cbn [List.length] in Hle. rewrite Nat2N.inj_succ in *.
-    change (mask_step (acc, i) b) with ((acc + shl8 (b2n b) i)%N, (i + 1)%N).
-    rewrite IH by lia. rewrite shl8_small by lia. f_equal; lia.
+    change (mask_step (acc, i) b) with ((acc + shl64 (b2n b) i)%N, (i + 1)%N).
+    rewrite IH by lia. rewrite shl64_small by lia. f_equal; lia.
 Qed.
-Lemma row_mask_rowmask bs : (List.length bs <= 8)%nat -> row_mask bs = rowmask bs 0.
+Lemma row_mask_rowmask bs : (List.length bs <= 64)%nat -> row_mask bs = rowmask bs 0.
 Proof. intros H. unfold row_mask. rewrite fold_mask_step by lia. reflexivity. Qed.
 
 Lemma rowmask_testbit : forall bs i k,
@@ -340,9 +341,9 @@ Proof.
 Qed.
 
 (* over any group (one truth vector of the n conditions per row): the OR of the row masks is
-   2^n - 1 exactly when every condition holds on some row.  Needs n <= 8: see shl8. *)
+   2^n - 1 exactly when every condition holds on some row.  Needs n <= 64: see shl64. *)
 Theorem bitmask_having (n : nat) (rows : list (list bool)) :
-  (n <= 8)%nat -> (forall bs, List.In bs rows -> List.length bs = n) ->
+  (n <= 64)%nat -> (forall bs, List.In bs rows -> List.length bs = n) ->
   (fold_left N.lor (map row_mask rows) 0%N = (2 ^ N.of_nat n - 1)%N
    <-> forall i, (i < n)%nat -> exists bs, List.In bs rows /\ nth i bs false = true).
 Proof.
@@ -368,7 +369,7 @@ Qed.
 
 (* the same, for a group of rows and a list of conditions on a row *)
 Corollary bitmask_having_pred {R C : Type} (p : C -> R -> bool) (cs : list C) (grp : list R) :
-  (List.length cs <= 8)%nat ->
+  (List.length cs <= 64)%nat ->
   (fold_left N.lor (map (fun r => row_mask (map (fun c => p c r) cs)) grp) 0%N = (2 ^ N.of_nat (List.length cs) - 1)%N
    <-> forall c, List.In c cs -> exists r, List.In r grp /\ p c r = true).
 Proof.
